@@ -136,6 +136,7 @@ def make_process(pid, gtf, outdir, clean_start=False, with_mapper_caches=False, 
                                      readable_names_dict={}, illumina_bam=None)
             args.input_data = SimpleNamespace(samples=[sample], input_type="fastq")
             args.resume = False
+            args.reference = V + "data/ref1.fa"
             isoquant.remove_previous_run_locks(args)
             args.index = V + "data/ref1.mmi"
 
